@@ -1,0 +1,48 @@
+//go:build verif
+
+package dxil
+
+import (
+	"fmt"
+
+	"github.com/gogpu/naga/dxil/internal/passes/dce"
+	"github.com/gogpu/naga/dxil/internal/passes/mem2reg"
+	"github.com/gogpu/naga/dxil/internal/passes/sroa"
+	"github.com/gogpu/naga/ir"
+)
+
+// Verification hooks (build tag "verif" only): they export the unexported DXIL
+// pre-emission pipeline so that the transformed *ir.Module can be observed.
+// They add no behaviour of their own.
+
+// VerifPrepareModule is prepareModule: clone + helper inlining.
+func VerifPrepareModule(m *ir.Module) (*ir.Module, error) { return prepareModule(m) }
+
+// VerifRunOptPasses is runOptPasses: sroa, mem2reg, dce over every function (in place).
+func VerifRunOptPasses(m *ir.Module) error { return runOptPasses(m) }
+
+// VerifRunPass runs one named pass ("sroa", "mem2reg", "dce") over every function of m (in place).
+func VerifRunPass(name string, m *ir.Module) error {
+	fns := make([]*ir.Function, 0, len(m.EntryPoints)+len(m.Functions))
+	for i := range m.EntryPoints {
+		fns = append(fns, &m.EntryPoints[i].Function)
+	}
+	for i := range m.Functions {
+		fns = append(fns, &m.Functions[i])
+	}
+	for _, fn := range fns {
+		switch name {
+		case "sroa":
+			sroa.Run(m, fn)
+		case "mem2reg":
+			if err := mem2reg.Run(m, fn); err != nil {
+				return fmt.Errorf("mem2reg: %w", err)
+			}
+		case "dce":
+			dce.Run(m, fn)
+		default:
+			return fmt.Errorf("unknown pass %q", name)
+		}
+	}
+	return nil
+}
